@@ -124,8 +124,11 @@ class Machine:
         if name is None:
             return None
         f = gen.gen_formula(rng, self.ref, s, name, self.cfg, pool=self.pool)
-        return {"op": "new_cells", "space": s.path(), "name": name, "formula": f,
-                "is_cached": rng.random() >= self.cfg.get("p_uncached", 0.2)}
+        op = {"op": "new_cells", "space": s.path(), "name": name, "formula": f,
+              "is_cached": rng.random() >= self.cfg.get("p_uncached", 0.2)}
+        if self.cfg.get("p_autoname") and f.get("style") == "def" and rng.random() < self.cfg["p_autoname"]:
+            op["autoname"] = True      # created without an explicit name: named after its def formula
+        return op
 
     def pick_cells(self, defined_only=False):
         rng = self.rng
